@@ -176,11 +176,10 @@ PROPERTIES["C09"] = {
     ]
     + [M("Step", list(a)) for a in _C09_STEPS]
     + [M("NewExecution", [L], witnesses=["an execution is started", "the run ends (bound reached or tree exhausted)"]) for L in range(0, 4)]
-    + [K("c09_fixed_data_source_rewinds", module="kp", timeout=900)]
+    + [K("c09_fixed_data_source_rewinds", module="kp", timeout=900), K("c09_fixed_data_source_long_executions", module="kp", timeout=900)]
     + [
         M("WholeRun", [3, 2, True], tier="thorough", witnesses=_W_TREE, timeout=1800),
         M("WholeRun", [2, 4, True], tier="thorough", witnesses=_W_TREE, timeout=1800),
-        M("WholeRun", [4, 2, False], tier="thorough", witnesses=_W_TREE, timeout=5400, max_paths=2000000),
     ]
     + [M("Step", [L, s, n], tier="thorough") for L in (4, 5) for s in range(0, L + 1) for n in (1, 2, 3, 4)]
     + [M("NewExecution", [L], tier="thorough", witnesses=["an execution is started", "the run ends (bound reached or tree exhausted)"]) for L in (4, 5, 6)],
@@ -191,7 +190,7 @@ PROPERTIES["C09"] = {
         "harness c09_fixed_data_source_rewinds)",
     ],
     "bounds_text": "whole runs: every choice tree of depth <= 2 with <= 2 (no bound) or <= 3 (any usize iteration bound) tasks offered per decision, "
-    "depth <= 3 with <= 2 tasks (no bound); thorough: depth 3 x 2 tasks and depth 2 x 4 tasks with any usize bound, depth 4 x 2 tasks without; the number "
+    "depth <= 3 with <= 2 tasks (no bound); thorough: depth 3 x 2 tasks and depth 2 x 4 tasks with any usize bound (depth 4 x 2 = 33 673 shapes did not finish in 30 min and is not registered); the number "
     "of tasks offered at a decision may depend on every earlier choice; task ids at every decision are symbolic (any strictly ascending usize values), the yielding "
     "flag symbolic. Asserted: no schedule twice, no schedule skipped, the run ends after the last schedule, with a bound exactly min(bound, #schedules) "
     "executions, every chosen task was offered, no panic, same seed and same draws (one before the first decision, one after the last) in every execution. "
